@@ -37,6 +37,13 @@ func init() {
 				cur = full[:len(d)]
 				copy(cur, d)
 			case "pad":
+				// the padded string does not depend on the capacity behind the caller's slice (in place or fresh allocation)
+				for _, w := range CapWindows(cur, bs) {
+					if mm := Diff(i, newPadding(st.Str("s"), bs).Pad(w), st.Hex("exp")); mm != nil {
+						mm.Note = "source handed over as a slice with capacity " + itoa(cap(w)) + " (length " + itoa(len(w)) + ")"
+						return mm
+					}
+				}
 				out := newPadding(st.Str("s"), bs).Pad(cur)
 				if mm := Diff(i, out, st.Hex("exp")); mm != nil {
 					return mm
